@@ -169,9 +169,49 @@ pub fn boundary_ns() -> Vec<i128> {
     v
 }
 
+/// duration texts on either side of every representation limit a parser might use (64-bit
+/// nanoseconds, chrono's i64 milliseconds, i64 / u64 seconds, u64 nanoseconds, 2^127), in every unit
+pub fn limit_texts() -> Vec<String> {
+    let mut v = vec![];
+    let limits: [u128; 8] = [
+        i64::MAX as u128,
+        u64::MAX as u128,
+        (i64::MAX as u128) * 1_000,
+        (i64::MAX as u128) * 1_000_000,
+        (i64::MAX as u128 / 1_000) * 1_000_000_000,
+        (i64::MAX as u128) * 1_000_000_000,
+        (u64::MAX as u128) * 1_000_000_000,
+        1u128 << 127,
+    ];
+    for l in limits {
+        for (unit, scale) in [("ns", 1u128), ("us", 1_000), ("ms", 1_000_000), ("s", 1_000_000_000), ("m", 60_000_000_000), ("h", 3_600_000_000_000)] {
+            let n = l / scale;
+            for k in [n.saturating_sub(1), n, n + 1] {
+                v.push(format!("{k}{unit}"));
+                v.push(format!("-{k}{unit}"));
+            }
+            v.push(format!("{n}{unit}0.9{unit}"));
+        }
+        for d in [l - 1, l, l + 1, l + 1_000_000] {
+            if d < (1u128 << 126) {
+                v.push(go_format(d as i128));
+                v.push(go_format(-(d as i128)));
+            }
+        }
+    }
+    v
+}
+
 pub fn generate(tier: Tier, rng: &mut Rng) -> Vec<Case> {
     let mut out = vec![];
     let default = CtxSpec::default_ctx();
+    for text in limit_texts() {
+        let want = match ref_parse(&text) {
+            Some(ns) => ok(&format!("(dur {ns})")),
+            None => FERR.to_string(),
+        };
+        push(&mut out, &default, &format!("duration({})", str_literal(&text)), Some(want), vec!["value", "parse-limit"]);
+    }
     let mut values = boundary_ns();
     let n = if tier == Tier::Quick { 600 } else { 100_000 };
     for _ in 0..n {
